@@ -128,6 +128,18 @@ SqlStageLabels(st, e, lbls) ==
       [] st.k = "dropv"  -> [l \in LabelNames |-> IF l = st.name /\ lbls[l] = st.val THEN "" ELSE lbls[l]]
       [] OTHER           -> lbls
 
+(* planner_main_renew.go: after a parser stage that is followed by a non-parser stage the request is wrapped   *)
+(* into a new SELECT block (renewMainAfter).  Inside one block every stage patches the same SELECT: a label    *)
+(* filter adds WHERE .. labels['x'] .., a drop / parser replaces the column "labels" by an expression with the *)
+(* alias "labels".  ClickHouse resolves the unqualified name labels in WHERE to that ALIAS, i.e. to the map     *)
+(* AFTER every label-changing stage of the block, including the ones written after the filter.                 *)
+RenewAfter(p, j) == j < Len(p) /\ IsParser(p[j]) /\ ~IsParser(p[j + 1])
+RECURSIVE BlockFinal(_, _, _, _)
+BlockFinal(p, j, e, lbls) ==       \* labels at the end of the block, applying the label-changing stages j..
+    IF j > Len(p) THEN lbls
+    ELSE LET nl == IF p[j].k \in {"lf", "lbl"} THEN lbls ELSE SqlStageLabels(p[j], e, lbls)
+         IN  IF RenewAfter(p, j) THEN nl ELSE BlockFinal(p, j + 1, e, nl)
+
 (* the row pipeline of planSpl over the ClickHouse part of the pipeline                                        *)
 RECURSIVE SqlPipe(_, _, _, _, _, _)
 SqlPipe(p, i, e, lbls, lj, db) ==
@@ -137,7 +149,8 @@ SqlPipe(p, i, e, lbls, lj, db) ==
          IN  IF st.k = "lf"
              THEN IF SqlLineHolds(st, e) THEN SqlPipe(p, i + 1, e, lb, lj, db) ELSE [ok |-> FALSE, lbls |-> lb]
              ELSE IF st.k = "lbl"
-             THEN IF Simple(p, i) \/ TreeSql(st.tree, lb) THEN SqlPipe(p, i + 1, e, lb, lj, db)
+             THEN IF Simple(p, i) \/ TreeSql(st.tree, IF RenewAfter(p, i) THEN lb ELSE BlockFinal(p, i + 1, e, lb))
+                  THEN SqlPipe(p, i + 1, e, lb, lj, db)
                   ELSE [ok |-> FALSE, lbls |-> lb]
              ELSE SqlPipe(p, i + 1, e, SqlStageLabels(st, e, lb), lj, db)
 
